@@ -7,11 +7,350 @@ path of fixes/C19-D27.patch) on: number of completed calls, exception kind, the 
 open()/close() calls (path, mode, descriptors open before the call, outcome), openHandles keys, seen,
 pruneIntervalCounter, and the content of every file read back after close().
 """
-import itertools, os
-import fw
+import ast, hashlib, itertools, os
+import fw, py2coq
+from py2coq import Untranslatable
 
 CHARS = 'ACGTN@+:;IF#\n01ab'
 EXC_KINDS = ['EMFILE', 'ENFILE', 'EINTR', 'EAGAIN', 'ENOMEM', 'EACCES', 'plain']
+
+
+SRC = 'singlecellmultiomics/pyutils/handlelimiter.py'
+CLS = 'HandleLimiter'
+
+
+def _sha(t):
+    return hashlib.sha256(t.encode()).hexdigest()
+
+
+# ----------------------------------------------------------------------------- T: coq/Gen/GenHandles.v
+# The decisions the content invariant hinges on are regenerated from the working tree on every run; Model.C19's
+# hl_* functions are defined WITH them, Proofs/C19_tie.v proves the shape lemmas that identify them with the
+# reference kernel of the invariant proofs.  Anything not of the recognised shape raises Untranslatable.
+class _Gen:
+    def __init__(self, repo):
+        self.path = os.path.join(repo, SRC)
+        self.src = open(self.path).read().replace('\r\n', '\n')
+        self.tree = ast.parse(self.src)
+        self.chunks, self.meta = [], []
+
+    def fn(self, name):
+        f = py2coq.find_function(self.tree, CLS + '.' + name)
+        if not isinstance(f, ast.FunctionDef):
+            raise Untranslatable('%s is not a function' % name)
+        return f
+
+    def emit(self, node, coqname, params, body, note=''):
+        seg = ast.get_source_segment(self.src, node) or ast.unparse(node)
+        self.chunks.append('(* source: %s line %d-%d sha256 %s %s\n   %s *)\nDefinition %s %s :=\n  %s.' % (
+            SRC, node.lineno, node.end_lineno, _sha(seg), note, ' '.join(seg.split()).replace('*)', '* )')[:300],
+            coqname, params, body))
+        self.meta.append({'source': SRC, 'lines': [node.lineno, node.end_lineno], 'sha256': _sha(seg), 'coq': coqname})
+
+    @staticmethod
+    def u(n):
+        return ast.unparse(n)
+
+    def expr(self, node, env, what, boolean=True):
+        """py2coq translation of an expression whose every name is covered by env (fail closed on any other name)"""
+        def free(n):
+            if ast.unparse(n) in env:
+                return set()
+            if isinstance(n, ast.Name):
+                return {n.id}
+            out = set()
+            for c in ast.iter_child_nodes(n):
+                out |= free(c)
+            return out
+        fr = free(node)
+        if fr:
+            raise Untranslatable('%s: `%s` reads %s, which is outside the recognised state' % (what, self.u(node), sorted(fr)))
+        tr = py2coq.ExprTranslator(env=env)
+        return tr.b(node) if boolean else tr.z(node)
+
+    @staticmethod
+    def nodoc(f):
+        b = list(f.body)
+        if b and isinstance(b[0], ast.Expr) and isinstance(b[0].value, ast.Constant) and isinstance(b[0].value.value, str):
+            b = b[1:]
+        return b
+
+    @staticmethod
+    def is_print(st):
+        return isinstance(st, ast.Expr) and isinstance(st.value, ast.Call) and isinstance(st.value.func, ast.Name) \
+            and st.value.func.id == 'print'
+
+    # ---- __init__: fresh state per instance, no other attributes, no mutable defaults
+    def init(self):
+        f = self.fn('__init__')
+        a = f.args
+        if a.vararg or a.kwarg or a.kwonlyargs or a.posonlyargs:
+            raise Untranslatable('__init__: argument form outside subset')
+        for d in list(a.defaults) + [d for d in a.kw_defaults if d is not None]:
+            if not (isinstance(d, ast.Constant) and (d.value is None or isinstance(d.value, (int, str, bool)))):
+                raise Untranslatable('__init__: default value `%s` is not an immutable constant (shared between instances)' % self.u(d))
+        expected = {'openHandles': '{}', 'seen': 'set()', 'maxHandles': 'maxHandles', 'pruneEvery': 'pruneEvery',
+                    'compressionLevel': 'compressionLevel'}
+        got = {}
+        for st in self.nodoc(f):
+            if not (isinstance(st, ast.Assign) and len(st.targets) == 1 and isinstance(st.targets[0], ast.Attribute)
+                    and self.u(st.targets[0].value) == 'self'):
+                raise Untranslatable('__init__: statement outside subset at line %d: %s' % (st.lineno, self.u(st)[:80]))
+            name = st.targets[0].attr
+            if name in got:
+                raise Untranslatable('__init__: %s assigned twice' % name)
+            got[name] = st
+        extra = set(got) - set(expected) - {'pruneIntervalCounter'}
+        if extra:
+            raise Untranslatable('__init__: extra instance state %s is not part of the model' % sorted(extra))
+        for k, v in expected.items():
+            if k not in got or self.u(got[k].value) != v:
+                raise Untranslatable('__init__: expected self.%s = %s' % (k, v))
+        if 'pruneIntervalCounter' not in got:
+            raise Untranslatable('__init__: pruneIntervalCounter not initialised')
+        st = got['pruneIntervalCounter']
+        self.emit(st, 'g_init_ctr', ': Z', self.expr(st.value, {}, '__init__', boolean=False))
+        self.emit(f, 'g_init_clean', ': bool', 'true',
+                  note='(openHandles = {}, seen = set() per instance, immutable defaults, no other attribute)')
+
+    # ---- write()
+    def open_calls(self, stmts, what):
+        """the open()/gzip.open() calls in a branch -> {gz: appendflag}; first argument must be `path`"""
+        out = {}
+        for st in stmts:
+            for n in ast.walk(st):
+                if isinstance(n, ast.Call) and self.u(n.func) in ('gzip.open', 'open'):
+                    gz = self.u(n.func) == 'gzip.open'
+                    if len(n.args) < 2 or self.u(n.args[0]) != 'path' or n.keywords and any(k.arg == 'mode' for k in n.keywords):
+                        raise Untranslatable('%s: open call form outside subset: %s' % (what, self.u(n)))
+                    m = n.args[1]
+                    if not (isinstance(m, ast.Constant) and isinstance(m.value, str)):
+                        raise Untranslatable('%s: open mode is not a string constant: %s' % (what, self.u(n)))
+                    mode = m.value
+                    if sorted(mode.replace('b', '').replace('t', '')) not in (['a'], ['w']) or (gz and 'b' not in mode) \
+                            or (not gz and 'b' in mode):
+                        raise Untranslatable('%s: open mode %r outside subset' % (what, mode))
+                    if gz in out:
+                        raise Untranslatable('%s: two %s calls in one branch' % (what, 'gzip.open' if gz else 'open'))
+                    out[gz] = 'a' in mode
+        return out
+
+    def method_split(self, stmts, what):
+        """[if method == 1: <gzip.open> else: <open>] + trailing statements -> (modes, trailing)"""
+        if not stmts or not (isinstance(stmts[0], ast.If) and self.u(stmts[0].test) == 'method == 1' and stmts[0].orelse):
+            raise Untranslatable('%s: expected `if method == 1: ... else: ...` first' % what)
+        a = self.open_calls(stmts[0].body, what)
+        b = self.open_calls(stmts[0].orelse, what)
+        if set(a) != {True} or set(b) != {False}:
+            raise Untranslatable('%s: expected gzip.open under method == 1 and open otherwise' % what)
+        for br in (stmts[0].body, stmts[0].orelse):
+            for st in br:
+                if 'seen' in self.u(st):
+                    raise Untranslatable('%s: self.seen touched inside the method branches' % what)
+        return {True: a[True], False: b[False]}, stmts[1:]
+
+    def write(self):
+        f = self.fn('write')
+        a = f.args
+        if [x.arg for x in a.args] != ['self', 'path', 'string', 'method', 'forceAppend'] or a.vararg or a.kwarg:
+            raise Untranslatable('write: signature outside subset')
+        attrs = {n.attr for n in ast.walk(f) if isinstance(n, ast.Attribute) and self.u(n.value) == 'self'}
+        extra = attrs - {'openHandles', 'seen', 'compressionLevel', 'pruneIntervalCounter', 'pruneEvery', 'prune', 'close'}
+        if extra:
+            raise Untranslatable('write: reads/writes instance state %s that is not part of the model' % sorted(extra))
+        body = self.nodoc(f)
+        if len(body) != 5:
+            raise Untranslatable('write: expected 5 top level statements (open block, write, lastw, counter, prune), found %d' % len(body))
+        blk, wr, lastw, ctr, pr = body
+        # 1. the open block is entered iff the path has no entry
+        if not (isinstance(blk, ast.If) and not blk.orelse):
+            raise Untranslatable('write: first statement is not the `if path not in self.openHandles:` block')
+        self.emit(blk.test, 'g_write_guard', '(is_open : bool) : bool',
+                  self.expr(blk.test, {'path not in self.openHandles': '(negb is_open)', 'path in self.openHandles': 'is_open'},
+                            'write guard'))
+        b = blk.body
+        if not (len(b) == 3 and self.u(b[0]) == 'self.openHandles[path] = {}' and isinstance(b[1], ast.Assign)
+                and isinstance(b[1].targets[0], ast.Name) and self.u(b[1].value) == 'True' and isinstance(b[2], ast.While)):
+            raise Untranslatable('write: open block is not [placeholder, flag = True, while flag: ...]')
+        flag = b[1].targets[0].id
+        loop = b[2]
+        if self.u(loop.test) != flag or loop.orelse or len(loop.body) != 1 or not isinstance(loop.body[0], ast.Try):
+            raise Untranslatable('write: retry loop is not `while %s: try: ...`' % flag)
+        tr = loop.body[0]
+        if tr.orelse or tr.finalbody or len(tr.handlers) != 1:
+            raise Untranslatable('write: try statement has else/finally or several handlers')
+        tb = tr.body
+        if not (len(tb) == 2 and isinstance(tb[0], ast.If) and tb[0].orelse and self.u(tb[1]) == '%s = False' % flag):
+            raise Untranslatable('write: try body is not [if <append test>: ... else: ..., %s = False]' % flag)
+        # 2. append-vs-truncate decision and the modes used in each branch
+        dec = tb[0]
+        self.emit(dec.test, 'g_append_test', '(in_seen force : bool) : bool',
+                  self.expr(dec.test, {'path in self.seen': 'in_seen', 'forceAppend': 'force'}, 'append test'))
+        m_then, rest_then = self.method_split(dec.body, 'append branch')
+        m_else, rest_else = self.method_split(dec.orelse, 'new-file branch')
+        t = lambda x: 'true' if x else 'false'
+        self.emit(dec, 'g_opens_append', '(append_branch gz : bool) : bool',
+                  'if append_branch then (if gz then %s else %s) else (if gz then %s else %s)'
+                  % (t(m_then[True]), t(m_then[False]), t(m_else[True]), t(m_else[False])),
+                  note="(true: mode 'a'/'ab', false: mode 'w'/'wb'; gz: method == 1)")
+        # 3. where seen.add(path) happens: only after the open statement of a branch (reached iff open succeeded)
+
+        def seen_after(rest, what):
+            if not rest:
+                return 'false'
+            if len(rest) == 1 and self.u(rest[0]) == 'self.seen.add(path)':
+                return 'open_ok'
+            raise Untranslatable('%s: statements after the open outside subset: %s' % (what, self.u(rest[0])[:80]))
+        self.emit(dec, 'g_seen_added', '(append_branch open_ok : bool) : bool',
+                  'if append_branch then %s else %s' % (seen_after(rest_then, 'append branch'), seen_after(rest_else, 'new-file branch')),
+                  note='(is the path added to self.seen by an attempt; open_ok: the open() of the attempt succeeded)')
+        # 4. the handler: which failures it catches, when it retries, what it does before retrying
+        h = tr.handlers[0]
+        catch_all = h.type is not None and self.u(h.type) in ('Exception', 'BaseException')
+        catch_os = h.type is not None and self.u(h.type) in ('OSError', 'IOError', 'EnvironmentError')
+        if not (catch_all or catch_os):
+            raise Untranslatable('write: handler catches %s' % (self.u(h.type) if h.type else 'everything (bare except)'))
+        self.emit(h.type, 'g_handler_catches', '(is_oserror : bool) : bool', 'true' if catch_all else 'is_oserror')
+        hb = [st for st in h.body if self.u(st) != '%s = True' % flag]
+        if len(hb) != 1 or not isinstance(hb[0], ast.If):
+            raise Untranslatable('write: handler body is not a single `if <other handles open>: ... else: raise` (line %d)' % h.lineno)
+        rt = hb[0]
+        self.emit(rt.test, 'g_retry', '(n_entries : Z) : bool',
+                  self.expr(rt.test, {'len(self.openHandles)': 'n_entries'}, 'retry test'),
+                  note='(n_entries = len(self.openHandles), the placeholder of the path included)')
+        acts = [self.u(st) for st in rt.body]
+        if acts == ['self.close()', 'self.openHandles[path] = {}']:
+            restores = True
+        elif acts == ['self.close()']:
+            restores = False
+        else:
+            raise Untranslatable('write: recovery branch is %r, expected close() [+ placeholder restore]' % acts)
+        self.emit(rt, 'g_restores_placeholder', ': bool', t(restores))
+        giveup = [st for st in rt.orelse if not self.is_print(st)]
+        if not (len(giveup) == 1 and isinstance(giveup[0], ast.Raise) and giveup[0].exc is None):
+            raise Untranslatable('write: the give-up branch does not re-raise the exception')
+        # 5. the write itself goes through self.openHandles[path]['handle']
+        wsrc = self.u(wr)
+        if not (isinstance(wr, ast.If) and self.u(wr.test) == 'method == 0' and len(wr.body) == 1 and len(wr.orelse) == 1
+                and self.u(wr.body[0]) == "self.openHandles[path]['handle'].write(string)"
+                and self.u(wr.orelse[0]) == "self.openHandles[path]['handle'].write(bytes(string, 'UTF-8'))"):
+            raise Untranslatable('write: the record is not written through self.openHandles[path][\'handle\']: %s' % wsrc[:120])
+        if self.u(lastw) != "self.openHandles[path]['lastw'] = time.time()":
+            raise Untranslatable('write: lastw statement outside subset')
+        # 6. counter and prune trigger
+        if not (isinstance(ctr, ast.AugAssign) and self.u(ctr.target) == 'self.pruneIntervalCounter' and isinstance(ctr.op, ast.Add)):
+            raise Untranslatable('write: counter statement outside subset')
+        self.emit(ctr, 'g_ctr_step', '(ctr : Z) : Z', '(ctr + %s)' % self.expr(ctr.value, {}, 'counter step', boolean=False))
+        if not (isinstance(pr, ast.If) and not pr.orelse and [self.u(x) for x in pr.body] == ['self.prune()']):
+            raise Untranslatable('write: last statement is not `if <due>: self.prune()`')
+        self.emit(pr.test, 'g_prune_due', '(ctr pe : Z) : bool',
+                  self.expr(pr.test, {'self.pruneIntervalCounter': 'ctr', 'self.pruneEvery': 'pe'}, 'prune trigger'))
+
+    # ---- prune()
+    def prune(self):
+        f = self.fn('prune')
+        body = self.nodoc(f)
+        if not (len(body) == 2 and isinstance(body[0], ast.If) and not body[0].orelse
+                and isinstance(body[1], ast.Assign) and self.u(body[1].targets[0]) == 'self.pruneIntervalCounter'):
+            raise Untranslatable('prune: expected [if <too many>: ..., self.pruneIntervalCounter = <const>]')
+        env = {'len(self.openHandles)': 'n', 'self.maxHandles': 'mh'}
+        self.emit(body[0].test, 'g_prune_needed', '(n mh : Z) : bool', self.expr(body[0].test, env, 'prune test'))
+        self.emit(body[1], 'g_prune_ctr', ': Z', self.expr(body[1].value, {}, 'prune counter reset', boolean=False))
+        b = body[0].body
+        if not (len(b) == 3 and isinstance(b[0], ast.Assign) and isinstance(b[0].targets[0], ast.Name)
+                and isinstance(b[1], ast.Assign) and isinstance(b[1].targets[0], ast.Name) and isinstance(b[2], ast.For)):
+            raise Untranslatable('prune: expected [count, victims = sorted(...)[:count], for victim: ...]')
+        cnt, vic, loop = b
+        cname, vname = cnt.targets[0].id, vic.targets[0].id
+        self.emit(cnt, 'g_to_prune', '(n mh : Z) : Z', self.expr(cnt.value, env, 'prune count', boolean=False))
+        v = vic.value
+        if not (isinstance(v, ast.Subscript) and isinstance(v.slice, ast.Slice) and v.slice.lower is None and v.slice.step is None
+                and v.slice.upper is not None and self.u(v.slice.upper) == cname and isinstance(v.value, ast.Call)
+                and self.u(v.value.func) == 'sorted'):
+            raise Untranslatable('prune: victims are not sorted(...)[:%s]' % cname)
+        call = v.value
+        kw = {k.arg: k.value for k in call.keywords}
+        if len(call.args) != 1 or self.u(call.args[0]) not in ('self.openHandles.keys()', 'self.openHandles', 'list(self.openHandles)') \
+                or set(kw) - {'key', 'reverse'} or 'key' not in kw:
+            raise Untranslatable('prune: sorted(...) form outside subset')
+        lam = kw['key']
+        if not (isinstance(lam, ast.Lambda) and len(lam.args.args) == 1):
+            raise Untranslatable('prune: sort key is not a one argument lambda')
+        arg = lam.args.args[0].arg
+        self.emit(lam, 'g_victim_key', '(lastw : Z) : Z',
+                  self.expr(lam.body, {"self.openHandles[%s]['lastw']" % arg: 'lastw'}, 'sort key', boolean=False))
+        rev = kw.get('reverse')
+        if rev is not None and not (isinstance(rev, ast.Constant) and isinstance(rev.value, bool)):
+            raise Untranslatable('prune: reverse= is not a boolean constant')
+        self.emit(call, 'g_sort_descending', ': bool', 'true' if (rev is not None and rev.value) else 'false')
+        # loop: close the handle (errors ignored) and pop the entry; nothing else (self.seen is not touched)
+        if not (self.u(loop.iter) == vname and isinstance(loop.target, ast.Name) and not loop.orelse and len(loop.body) == 2):
+            raise Untranslatable('prune: victim loop outside subset')
+        x = loop.target.id
+        self.closes_handle(loop.body[0], x, 'prune')
+        if self.u(loop.body[1]) != 'self.openHandles.pop(%s)' % x:
+            raise Untranslatable('prune: second statement of the victim loop is %s' % self.u(loop.body[1])[:80])
+        self.emit(loop, 'g_prune_keeps_seen', ': bool', 'true', note='(the victim loop only closes the handle and pops the entry)')
+
+    def closes_handle(self, st, x, what, allow_else_print=False):
+        ok = (isinstance(st, ast.If) and self.u(st.test) == "'handle' in self.openHandles[%s]" % x and len(st.body) == 1
+              and isinstance(st.body[0], ast.Try) and len(st.body[0].body) == 1
+              and self.u(st.body[0].body[0]) == "self.openHandles[%s]['handle'].close()" % x
+              and len(st.body[0].handlers) == 1 and [self.u(s) for s in st.body[0].handlers[0].body] == ['pass']
+              and not st.body[0].orelse and not st.body[0].finalbody)
+        if ok and st.orelse:
+            ok = allow_else_print and all(self.is_print(s) for s in st.orelse)
+        if not ok:
+            raise Untranslatable('%s: handle closing statement outside subset (line %d)' % (what, st.lineno))
+
+    # ---- close()
+    def close(self):
+        f = self.fn('close')
+        body = self.nodoc(f)
+        clears_seen = resets_ctr = False
+        core = []
+        for st in body:
+            u = self.u(st)
+            if u in ('self.seen.clear()', 'self.seen = set()'):
+                clears_seen = True
+            elif isinstance(st, ast.Assign) and self.u(st.targets[0]) == 'self.pruneIntervalCounter':
+                resets_ctr = True
+            else:
+                core.append(st)
+        if not (len(core) == 4 and self.u(core[0]).endswith('= self.openHandles.keys()') and isinstance(core[0].targets[0], ast.Name)
+                and isinstance(core[1], ast.Assign) and self.u(core[1].value) == '[]'
+                and isinstance(core[2], ast.For) and isinstance(core[3], ast.For)):
+            raise Untranslatable('close: expected [keys, destroyed = [], for path in keys: ..., for d in destroyed: pop]')
+        kname, dname = core[0].targets[0].id, core[1].targets[0].id
+        l1, l2 = core[2], core[3]
+        if not (self.u(l1.iter) == kname and isinstance(l1.target, ast.Name) and len(l1.body) == 2 and not l1.orelse):
+            raise Untranslatable('close: first loop outside subset')
+        x = l1.target.id
+        self.closes_handle(l1.body[0], x, 'close', allow_else_print=True)
+        if self.u(l1.body[1]) != '%s.append(%s)' % (dname, x):
+            raise Untranslatable('close: first loop does not record every key')
+        if not (self.u(l2.iter) == dname and isinstance(l2.target, ast.Name) and not l2.orelse
+                and [self.u(s) for s in l2.body] == ['self.openHandles.pop(%s)' % l2.target.id]):
+            raise Untranslatable('close: second loop does not pop every recorded key')
+        self.emit(f, 'g_close_clears_seen', ': bool', 'true' if clears_seen else 'false')
+        self.emit(f, 'g_close_resets_ctr', ': bool', 'true' if resets_ctr else 'false')
+
+
+def regen_handles():
+    gen_path = os.path.join(fw.COQ, 'Gen', 'GenHandles.v')
+    try:
+        g = _Gen(fw.REPO)
+        g.init(); g.write(); g.prune(); g.close()
+    except Exception:
+        # fail closed: no stale kernel may be left for the proofs to build against
+        for ext in ('.v', '.vo', '.vos', '.vok', '.glob'):
+            try:
+                os.remove(gen_path[:-2] + ext)
+            except OSError:
+                pass
+        raise
+    py2coq.write_gen(gen_path, '', g.chunks)
+    return g.meta
 
 
 def fa_consistent(ops):
@@ -104,7 +443,7 @@ def spec_violations(case, r):
         return [('harness-error', 'the harness could not run the case: ' + r['error'])]
     v = []
     k, ops = r['k'], case['ops']
-    if isinstance(r['status'], str) and 'Livelock' in r['status']:
+    if r['status'] == 3 or (isinstance(r['status'], str) and 'Livelock' in r['status']):
         v.append(('livelock', 'write() call %d (path %r) never returns: open() keeps failing with no other handle open and the '
                   'writer keeps retrying (more than 60 consecutive failed open() calls) instead of raising'
                   % (k, ops[k][0] if k < len(ops) else None)))
@@ -138,6 +477,9 @@ def spec_violations(case, r):
         v.append(('leak', '%d descriptor(s) still open after close()' % r['leaked']))
     if r['close_error']:
         v.append(('close-raised', 'close() raised ' + r['close_error']))
+    if r.get('seen_foreign'):
+        v.append(('state-shared', 'self.seen of a new writer already contains paths it never wrote (state shared between '
+                  'instances): %r' % (r['seen_foreign'],)))
     if r['unknown_paths']:
         v.append(('foreign-path', 'opened a path that no write named: %r' % r['unknown_paths']))
     return v
@@ -202,6 +544,9 @@ class Prop(fw.PropBase):
         'and an OSError without errno, in rotation per fault script (the oracle is errno-agnostic, as the code must be); '
         'write()/close() of an opened handle never fail (disk full is out of scope); time.time() is strictly '
         'increasing between writes (logical clock; the harness substitutes one)',
+        'T: the recognisers of tools/c19.py regen_handles (statement shapes of __init__/write/prune/close -> Gen/GenHandles.v, '
+        'fail closed) and py2coq for the translated tests; everything of write() outside the generated decisions (loop '
+        'structure, the dictionary operations, handle.write) is tied by K only',
         'K harness: tools/impl_c19.py replaces gzip.open, handlelimiter.open and handlelimiter.time for the duration '
         'of a case; real descriptor exhaustion is exercised only in the rlimit cases (RLIMIT_NOFILE lowered)',
         'the model is the REPAIRED retry path (fixes/C19-D27.patch); Model fixed:=false is the code as found and is '
@@ -222,6 +567,9 @@ class Prop(fw.PropBase):
         'bamSplitByTag: max_handles >= 1 (with max_handles <= 0 and a tagged read the loop never ends - '
         'C19_bamsplit_needs_a_handle) and -head not given',
     ]
+
+    def regen(self):
+        return regen_handles()
 
     # ---------------------------------------------------------------- generators
     def rand_string(self, i, pid):
@@ -522,7 +870,7 @@ class Prop(fw.PropBase):
                 if key not in found or rank < found[key][5]:
                     found[key] = (l, c, r, text, fc, rank)
         order = ['retry-keyerror', 'livelock', 'other-exception', 'content', 'raise-under-good-script', 'raise-not-hopeless',
-                 'invalid-file', 'leak', 'close-raised', 'foreign-path', 'harness-error']
+                 'state-shared', 'invalid-file', 'leak', 'close-raised', 'foreign-path', 'harness-error']
         keys = sorted(found, key=lambda k: order.index(k) if k in order else 99)
         jobs = []
         for k in keys:
